@@ -150,7 +150,95 @@ def _c13_nontrivial(ops):
     return False
 
 
+DB_ASSUME = ["sequential driver: one goroutine issues all calls (interleavings are the subject of drv_sched)",
+             "two live objects never share a unique secondary key (user error outside the properties)",
+             "the old object's revision is not returned by the write API and is not compared",
+             "LPM Get/List are judged for full-length keys and stored prefixes"]
+
+
+def _db_prop(prop, mode, nq, nt, rule, nontrivial, extra_modes=()):
+    def fn(tier, seed, rng):
+        import db_gen
+        quick = tier == "quick"
+        design = [design_check("MCDB", "MCDBQuick.cfg" if quick else "MCDB.cfg")]
+        fams = [Family(mode, "db", "DBTrace", db_gen.generate(mode, nq if quick else nt, seed * 31 + int(prop[1:])))]
+        for (m2, q2, t2) in extra_modes:
+            fams.append(Family(m2, "db", "DBTrace", db_gen.generate(m2, q2 if quick else t2, seed * 37 + int(prop[1:]))))
+        return design, fams, [prop], dict(rule=rule, nontrivial=nontrivial, assumptions=DB_ASSUME)
+    return fn
+
+
+def _has(ops, pred):
+    return any(pred(o) for o in ops)
+
+
+def _nt_requery(ops):
+    return _has(ops, lambda o: o.get("first", 0) > 0)
+
+
+def _nt_abort(ops):
+    return _has(ops, lambda o: o["op"] == "abort") and _has(ops, lambda o: o.get("ctx") == "postabort")
+
+
+def _nt_write(ops):
+    return sum(1 for o in ops if o["op"] in ("insert", "modify", "cas", "cad", "delete", "deleteall")) >= 2
+
+
+def _nt_watch(ops):
+    return _has(ops, lambda o: o.get("w", 0) > 0) and _has(ops, lambda o: o["op"] in ("commit", "abort"))
+
+
+def _nt_iter(ops):
+    return _has(ops, lambda o: o["op"] == "next") and _has(ops, lambda o: o["op"] in ("delete", "deleteall"))
+
+
+def _nt_init(ops):
+    return _has(ops, lambda o: o["op"] == "reginit") and _has(ops, lambda o: o["op"] == "markdone")
+
+
 PROPS = {
+    "C01": _db_prop("C01", "c01", 300, 6000,
+                    "shaped sequential histories over tables with primary, unique, multi-key non-unique, unique and "
+                    "non-unique LPM indexes; snapshots are retained and the same queries re-issued after later "
+                    "committed/aborted/pending transactions and graveyard collection; non-trivial = script re-queries "
+                    "a retained snapshot after a later write transaction", _nt_requery,
+                    extra_modes=(("c07", 100, 2000),)),
+    "C02": _db_prop("C02", "c02", 300, 6000,
+                    "histories in which about half of the write transactions (with writes on every index kind, "
+                    "Changes(), initializer registration, InsertWatch) abort; the complete query battery, revisions, "
+                    "channel bits and later transactions are compared with the pre-transaction state; non-trivial = "
+                    "script contains an aborted transaction followed by the battery", _nt_abort,
+                    extra_modes=(("c07", 150, 3000), ("c19", 100, 2000))),
+    "C03": _db_prop("C03", "c03", 400, 8000,
+                    "Insert/InsertWatch/Modify/Delete/DeleteAll/CompareAndSwap/CompareAndDelete with guards "
+                    "{current, stale, future}, missing and present objects, tables not held, finished transactions; "
+                    "replies, errors and the state after rejected operations are compared; non-trivial = >= 2 writes",
+                    _nt_write, extra_modes=(("kf_n", 20, 100),)),
+    "C04": _db_prop("C04", "c04", 250, 5000,
+                    "complete query battery (Get/List/Prefix/LowerBound/All/NumObjects/ByRevision on primary, unique, "
+                    "multi-key, LPM unique/non-unique indexes; keys empty, prefixes of one another, 0x00/0x01/0xff) on "
+                    "fresh snapshots and inside write transactions after key-set changing updates; non-trivial = >= 2 writes",
+                    _nt_write),
+    "C06": _db_prop("C06", "c06", 300, 6000,
+                    "watch channels of every query kind on every index kind taken from fresh snapshots before each "
+                    "transaction plus InsertWatch; channel bits sampled at hand-out and after every commit/abort; "
+                    "non-trivial = a tracked channel exists when a transaction ends", _nt_watch,
+                    extra_modes=(("c07", 100, 2000), ("kf_l", 20, 100))),
+    "C07": _db_prop("C07", "c07", 400, 8000,
+                    "up to 4 change iterators created at arbitrary points (also in aborted transactions); Next with "
+                    "fresh/retained snapshots and write transactions holding uncommitted changes of the table, full and "
+                    "partial consumption, re-inserts after deletes, virtual-time graveyard collection in between; "
+                    "non-trivial = Next after a delete", _nt_iter),
+    "C08": _db_prop("C08", "c08", 400, 8000,
+                    "as C07 with graveyard size observed (public Metrics) after virtual-time waits: lower bound always, "
+                    "exact after quiescence; non-trivial = Next after a delete", _nt_iter),
+    "C09": _db_prop("C09", "c09", 300, 6000,
+                    "as C03 plus Table.Revision on every source and ByRevision queries for bounds 0..8; non-trivial = "
+                    ">= 2 writes", _nt_write),
+    "C19": _db_prop("C19", "c19", 400, 8000,
+                    "up to 3 initializers registered/completed across committed and aborted transactions mixed with "
+                    "writes; Initialized/PendingInitializers on every snapshot and transaction, init channel bits after "
+                    "every commit/abort; non-trivial = a registration and a completion", _nt_init),
     "C11": prop_C11,
     "C12": prop_C12,
     "C13": prop_C13,
@@ -196,6 +284,7 @@ def run_check(prop, tier):
                 other_all.append((fam, rec))
         violations = 0
         seen_known = set()
+        per_inv = {}
         by_inv = {}
         for fam, rec in bad_all:
             by_inv[rec[2]] = by_inv.get(rec[2], 0) + 1
@@ -209,7 +298,8 @@ def run_check(prop, tier):
                     seen_known.add(k["id"])
                 continue
             violations += 1
-            if violations <= 10:
+            per_inv[inv] = per_inv.get(inv, 0) + 1
+            if per_inv[inv] <= 3:
                 path = core.save_replay(prop, fam.driver, fam.trace_module, ops, inv, ev)
                 print(f"VIOLATION property={prop} replay={path}")
                 log(f"  invariant={inv} family={fam.name} script={sid} event={json.dumps(ev)[:400]}")
@@ -287,6 +377,15 @@ def main(argv):
             ops = core.shrink(body["driver"], body["trace_module"], body["ops"], body["invariant"])
             for o in ops:
                 print(json.dumps(o))
+            scratch = tempfile.mkdtemp(prefix="vexplain-")
+            try:
+                res = core.run_family(Family("x", body["driver"], body["trace_module"], [ops]), scratch, [""])
+                for sid, ln, inv, ev, _ in res["bad"]:
+                    print("INVARIANT", inv)
+                    print("EVENT    ", json.dumps({k: v for k, v in ev.items() if k != "_expected"}))
+                    print("EXPECTED ", ev.get("_expected"))
+            finally:
+                shutil.rmtree(scratch, ignore_errors=True)
             return 0
         prop = argv[0]
         tier = os.environ.get("VERIF_TIER", "quick")
